@@ -11,7 +11,7 @@ CONTRACTS["BloomFilter.hashes"].contexts.append("CountingBloomFilter")
 
 _H = [("inv", "inv_cbloom(self)"), ("exactly_number_hashes_values", "len(hashes) >= self._number_hashes")]
 
-contract("CountingBloomFilter.add_alt", contexts=["CountingBloomFilter"], properties=["C08", "C16", "C14", "C12"],
+contract("CountingBloomFilter.add_alt", contexts=["CountingBloomFilter"], properties=["C08", "C16", "C14", "C12", "C06"],
          params={"hashes": "list[int]", "num_els": "int"}, returns="int",
          requires=_H + [("positive_amount", "num_els >= 1"), ("counter_nonneg", "self._els_added >= 0")],
          modifies=["self._bloom", "self._els_added"],
@@ -32,7 +32,7 @@ contract("CountingBloomFilter.add_alt", contexts=["CountingBloomFilter"], proper
              ("vals_todo", "all(vals[j] == old(self._bloom[hashes[j] % self._bloom_length]) + num_els "
                            "for j in range(_i, len(vals)))")]}})
 
-contract("CountingBloomFilter.check_alt", contexts=["CountingBloomFilter"], properties=["C08", "C19"],
+contract("CountingBloomFilter.check_alt", contexts=["CountingBloomFilter"], properties=["C08", "C19", "C06"],
          params={"hashes": "list[int]"}, returns="int",
          requires=[("inv", "inv_cbloom(self)"), ("nonempty", "len(hashes) >= 1")],
          modifies=[],
@@ -42,7 +42,7 @@ contract("CountingBloomFilter.check_alt", contexts=["CountingBloomFilter"], prop
 _MV = "min(self._bloom[hashes[j] % self._bloom_length] for j in range(0, self._number_hashes))"
 _NOOP = "(mv0 == 4294967295 or mv0 == 0)"
 
-contract("CountingBloomFilter.remove_alt", contexts=["CountingBloomFilter"], properties=["C08", "C16", "C14"],
+contract("CountingBloomFilter.remove_alt", contexts=["CountingBloomFilter"], properties=["C08", "C16", "C14", "C06"],
          params={"hashes": "list[int]", "num_els": "int"}, returns="int",
          let=[("mv0", _MV), ("t0", "(num_els if mv0 > num_els else mv0)")],
          requires=_H + [("positive_amount", "num_els >= 1"),
